@@ -1,8 +1,8 @@
 #!/usr/bin/env python3
-"""tools/round3_stats.py -- first-run outcome of the round-3 seeded changes (seeded/*-[789]/result_first_run.json)."""
+"""tools/round3_stats.py -- first-run outcome of the round-3 seeded changes (seeded/*-[0-9]*/result_first_run.json)."""
 import json, glob, collections
 c = collections.Counter(); lst = collections.defaultdict(list)
-for f in sorted(glob.glob('/verif/seeded/*-[789]/result_first_run.json')):
+for f in sorted(glob.glob('/verif/seeded/*-[0-9]*/result_first_run.json')):
     r = json.load(open(f)); sid = f.split('/')[-2]
     ch = r['checks'][sid.split('-')[0]]
     k = 'concrete' if ch.get('concrete_replay') else ('tie-broken-only' if ch.get('exit') == 1 else 'MISSED')
